@@ -298,7 +298,30 @@ class Case:
         return s
 
 
+def gen_swap_case(rng: random.Random) -> Case:
+    """Two alternatives that both match structurally but bind the guard's variable at different positions: a false
+    guard on the first alternative must fall through to the second one."""
+    extra = rng.choice([[], ["bool"], ["opt"]])
+    types = ["i32", "i32"] + extra
+    k1, k2 = rng.sample([0, 1, 2, 3, 7], 2)
+    first = [p_bind("a"), p_wild() if rng.random() < 0.6 else gen_int(rng)]
+    second = [p_wild() if rng.random() < 0.6 else gen_int(rng), p_bind("a")]
+    for t in extra:
+        first.append(GEN[t](rng))
+        second.append(GEN[t](rng))
+    form = rng.choice(["eq", "gt", "or"])
+    if form == "eq":
+        guard = (f"*a == {k1}", lambda b, k1=k1: b["a"] == k1)
+    elif form == "gt":
+        guard = (f"*a > {min(k1, 3)}", lambda b, k=min(k1, 3): b["a"] > k)
+    else:
+        guard = (f"*a == {k1} || *a == {k2}", lambda b, k1=k1, k2=k2: b["a"] in (k1, k2))
+    return Case(types, [first, second], guard)
+
+
 def gen_case(rng: random.Random) -> Case:
+    if rng.random() < 0.06:
+        return gen_swap_case(rng)
     n = rng.choice([0, 1, 1, 2, 2, 2, 3, 3])
     types = [rng.choice(list(TYPES)) for _ in range(n)]
     if n == 0:
